@@ -116,6 +116,39 @@ def accuracy_oracle(args):
         if abs(np.linalg.norm(outh) / np.linalg.norm(v) - 1) > 1e-9:
             return "expm_arnoldi does not preserve the norm for a Hermitian operator"
         return None
+    if kind == "defective":
+        # non-diagonalisable (or nearly so) generators: exceptional points of effective Hamiltonians, nilpotent ladders, Jordan blocks
+        sub = args["sub"]
+        if sub == "critical":
+            nq = args["n"]
+            g = float(rng.uniform(0.3, 1.2))
+            x = np.array([[0, 1], [1, 0]], dtype=complex)
+            nn = np.array([[0, 0], [0, 1]], dtype=complex)
+            a = np.zeros((2**nq, 2**nq), dtype=complex)
+            for i in range(nq):
+                ops_x = [np.eye(2)] * nq
+                ops_n = [np.eye(2)] * nq
+                ops_x[i], ops_n[i] = x, nn
+                kx, kn = np.eye(1), np.eye(1)
+                for m1, m2 in zip(ops_x, ops_n):
+                    kx, kn = np.kron(kx, m1), np.kron(kn, m2)
+                a = a + g * kx - 0.5j * (4 * g) * kn  # gamma = 4 g: critical damping
+            v = np.zeros(2**nq, dtype=complex)
+            v[0] = 1.0
+        elif sub == "ladder":
+            dlev = args["n"]
+            a = np.diag(np.sqrt(np.arange(1, dlev)), 1).astype(complex)  # lowering operator: nilpotent
+            v = np.zeros(dlev, dtype=complex)
+            v[-1] = 1.0
+        else:
+            dlev = args["n"]
+            a = (float(rng.uniform(-1, 1)) - 0.3j) * np.eye(dlev, dtype=complex) + np.diag(np.ones(dlev - 1), 1)
+            v = rng.normal(size=dlev) + 1j * rng.normal(size=dlev)
+        out = expm_arnoldi(lambda x_: a @ x_, v.copy(), dt)
+        ref = scipy.linalg.expm(-1j * dt * a) @ v
+        if np.linalg.norm(out - ref) > 1e-8 * np.linalg.norm(v):
+            return f"expm_arnoldi error {np.linalg.norm(out - ref) / np.linalg.norm(v):.3e} on a non-diagonalisable generator ({sub}, size {a.shape[0]}, dt={dt})"
+        return None
     if kind == "numba":
         big = args["n"]
         d = rng.uniform(-2, 2, size=big)
@@ -162,6 +195,10 @@ def search(ctx):
         plan.append(dict(kind=kind, seed=int(ctx.rng.integers(0, 2**31)), n=int(ctx.rng.choice([4, 16, 63, 64, 127, 128, 129, 200])),
                          dt=float(ctx.rng.choice([-1, 1]) * 10 ** ctx.rng.uniform(-2, 0)), width=float(ctx.rng.choice([0.5, 3, 10, 40])),
                          deficient=int(ctx.rng.choice([0, 0, 1, 2, 5])), chi=int(ctx.rng.choice([2, 5, 8, 9]))))
+    for k in range(ctx.scale(9, 90)):
+        sub = ["critical", "ladder", "jordan"][k % 3]
+        plan.append(dict(kind="defective", sub=sub, seed=int(ctx.rng.integers(0, 2**31)), n=int(ctx.rng.integers(2, 5)) if sub == "critical" else int(ctx.rng.integers(3, 8)),
+                         dt=float(ctx.rng.choice([0.1, 0.3, -0.2]))))
     plan += [dict(kind="numba", seed=1, n=4095, dt=0.1), dict(kind="numba", seed=2, n=4096, dt=0.1), dict(kind="numba", seed=3, n=1200, dt=-0.2)]
     if not ctx.quick:
         plan += [dict(kind="numba", seed=4, n=5000, dt=0.05)]
